@@ -383,6 +383,26 @@ fn run(ctx: &mut Ctx) {
                 }
             }
         }
+        // the same on threads that have never asked anything: each run as the very first question, and each run
+        // right after exactly one other (per-thread state starts from its initial value there, not from ours)
+        for x in 0..n {
+            for y in 0..n {
+                ctx.eval();
+                let (rx, ry) = (hist_runs[x], hist_runs[y]);
+                let f = move |r: u32| TpcPadPosition::try_new(r, b, a, pc).ok().map(|p| (usize::from(p.column), usize::from(p.row)));
+                match fresh_thread(move || (f(rx), f(ry))) {
+                    Ok((gx, gy)) if gx == table[x] && gy == table[y] => ctx.count("first / second questions of a new thread agree with the reference table"),
+                    Ok((gx, gy)) => {
+                        ctx.violation("pad position of a (run, board, chip, channel) depends on the calls made before", format!("board {}: a new thread asked run {} then run {}: got {:?} then {:?}, reference {:?} then {:?}", b.name(), rx, ry, gx, gy, table[x], table[y]), json!({"board": b.name(), "runs": [rx, ry]}));
+                        return;
+                    }
+                    Err(pn) => {
+                        ctx.panic_violation("TpcPadPosition::try_new", &pn, json!({"board": b.name()}));
+                        return;
+                    }
+                }
+            }
+        }
         // wires: same idea over the wire-map boundary
         let wb = a16[(bi % 8) as usize];
         let ch = Adc32ChannelId::try_from(rng.below(32) as u8).unwrap();
